@@ -2,8 +2,10 @@ package fakenet_test
 
 import (
 	"context"
+	"fmt"
 	"testing"
 
+	"github.com/libp2p/go-libp2p/core/network"
 	"github.com/libp2p/go-libp2p/core/peer"
 	"github.com/stretchr/testify/require"
 	"google.golang.org/protobuf/proto"
@@ -69,4 +71,51 @@ func peerID(t *testing.T, seed int) peer.ID {
 	require.NoError(t, err)
 
 	return id
+}
+
+func TestNetworkNotifeesAndConns(t *testing.T) {
+	n := fakenet.New()
+	a := n.Host(peerID(t, 1))
+	b := n.Host(peerID(t, 2))
+
+	var events []string
+	b.Network().Notify(&network.NotifyBundle{
+		ConnectedF: func(nw network.Network, c network.Conn) {
+			events = append(events, fmt.Sprintf("connected %d", len(nw.ConnsToPeer(c.RemotePeer()))))
+			require.Equal(t, a.ID(), c.RemotePeer())
+			require.Equal(t, b.ID(), c.LocalPeer())
+		},
+		DisconnectedF: func(nw network.Network, c network.Conn) {
+			events = append(events, fmt.Sprintf("disconnected %d", len(nw.ConnsToPeer(c.RemotePeer()))))
+		},
+	})
+	p2p.RegisterHandler("test", b, "/test/1.0.0", func() proto.Message { return new(timestamppb.Timestamp) },
+		func(context.Context, peer.ID, proto.Message) (proto.Message, bool, error) { return nil, false, nil })
+
+	require.Equal(t, network.NotConnected, a.Network().Connectedness(b.ID()))
+	// a stream dials implicitly, once
+	_, ok := n.Inject(a.ID(), b.ID(), "/test/1.0.0", &timestamppb.Timestamp{Seconds: 1})
+	require.True(t, ok)
+	require.NoError(t, p2p.Send(context.Background(), a, "/test/1.0.0", b.ID(), &timestamppb.Timestamp{Seconds: 2}))
+	n.WaitIdle()
+	require.Equal(t, []string{"connected 1"}, events)
+	require.Equal(t, network.Connected, b.Network().Connectedness(a.ID()))
+	require.Equal(t, []peer.ID{a.ID()}, b.Network().Peers())
+	require.Len(t, a.Network().Conns(), 1)
+
+	// a second connection, closing one keeps the peer connected
+	n.Connect(b.ID(), a.ID())
+	require.True(t, n.DisconnectOne(a.ID(), b.ID()))
+	require.Equal(t, []string{"connected 1", "connected 2", "disconnected 1"}, events)
+	require.Equal(t, 1, n.Disconnect(a.ID(), b.ID()))
+	require.Equal(t, 0, n.Disconnect(a.ID(), b.ID()))
+	require.Equal(t, "disconnected 0", events[len(events)-1])
+	require.Empty(t, b.Network().ConnsToPeer(a.ID()))
+	require.Empty(t, b.Network().Peers())
+
+	// re-dial on the next stream
+	_, _ = n.Inject(a.ID(), b.ID(), "/test/1.0.0", &timestamppb.Timestamp{Seconds: 3})
+	require.Equal(t, "connected 1", events[len(events)-1])
+	require.NoError(t, b.Network().ClosePeer(a.ID()))
+	require.Equal(t, "disconnected 0", events[len(events)-1])
 }
